@@ -1,4 +1,5 @@
 import RpcVerif.Lemmas.ServerInv
+import RpcVerif.Lemmas.Link
 /-
   C04 — the server executes each received request exactly once and answers it once
   (server connection automaton S, Model/ServerSM.lean; every interleaving of reader, decode
@@ -28,6 +29,22 @@ theorem C04_exactly_once_at_the_end {cfg : Cfg} {tr : List Ev} {s : State} (h : 
     (hu : UniqueSeq s) (hserved : s.reader = .served) (r : Req) (hr : r ∈ s.reqs) :
     (needsExec r = true → execCount s r.seq = 1) ∧ (needsResponse r = true → respCount s r.seq = 1) :=
   served_complete_of_flags allFlags_true h hu hserved r hr
+
+/-- `UniqueSeq` is not an assumption when the peer is this library's client: in the product
+    L = K ‖ link ‖ S (Model/Link.lean) the requests the server reads carry pairwise distinct sequence
+    numbers, so over every run of the product no handler runs twice and no request is answered twice. -/
+theorem C04_at_most_once_end_to_end {cfg : L.Cfg} {tr : List L.Ev} {s : L.State} (h : L.Accepts (L.init cfg) tr s) (k : Nat) :
+    execCount s.s k ≤ 1 ∧ respCount s.s k ≤ 1 := by
+  obtain ⟨trS, hS⟩ := L.server_run h
+  exact ⟨exec_at_most_once hS (L.unique_seq h) k, resp_at_most_once hS (L.unique_seq h) k⟩
+
+/-- Success means executed: a call that holds a reply was executed — the handler of the request that
+    carried its sequence number was entered (and, by the theorem above, exactly once). -/
+theorem C04_success_means_executed_once {cfg : L.Cfg} {tr : List L.Ev} {s : L.State} (h : L.Accepts (L.init cfg) tr s)
+    (k : Nat) (c : K.Call) (hc : s.k.calls k = some c) (src : Nat) (hr : c.replyFrom = some (src, .ok)) :
+    ∃ q, c.seq = some q ∧ q ∈ s.s.execs ∧ execCount s.s q ≤ 1 := by
+  obtain ⟨q, hq, he⟩ := L.success_means_executed h k c hc src hr
+  exact ⟨q, hq, he, (C04_at_most_once_end_to_end h q).1⟩
 
 /-- The source facts the model's crash conditions and teardown order rest on. -/
 theorem C04_source_facts : allFlags = true := allFlags_true
